@@ -117,7 +117,7 @@ fn c02_literal(ctx: &mut Ctx, v: &Value, datas: &[Value], class: &str) {
     }
 }
 
-pub fn c02(ctx: &mut Ctx) {
+fn c02_core(ctx: &mut Ctx) {
     let datas = data_set();
     let ops = all_ops();
     let mut idx = 0u64;
@@ -250,7 +250,7 @@ fn same_outcome(a: &Outcome, b: &Outcome) -> bool {
     }
 }
 
-pub fn c03(ctx: &mut Ctx) {
+fn c03_core(ctx: &mut Ctx) {
     let ops = all_ops();
     let datas = vec![Value::Null, json!({"a": 1, "b": {"c": 2}, "k": "a"}), json!([10, 20, 30]), json!("data-string")];
     let v = v_all();
@@ -334,4 +334,14 @@ pub fn c03(ctx: &mut Ctx) {
     ctx.exhaustive_parts.push("35 operators x operand counts 0..6 x {type-valid tuple, random tuples} x 4 data values; 35 operators x every non-array corpus value in bracket-less form".into());
     ctx.sample(json!({"cell": "operator x count x form", "example": {"<": [1, 2, 3, 4]}, "documented": false}));
     ctx.sample(json!({"cell": "bracket-less", "example": [{"var": {"var": "k"}}, {"var": [{"var": "k"}]}]}));
+}
+
+pub fn c02(ctx: &mut Ctx) {
+    c02_core(ctx);
+    crate::props_sizes::c02(ctx);
+}
+
+pub fn c03(ctx: &mut Ctx) {
+    c03_core(ctx);
+    crate::props_sizes::c03(ctx);
 }
